@@ -198,6 +198,12 @@ def _l4_order(a0: int, a1: int, a2: int, p: int, dup: bool, shift: int) -> bool:
     return mk(perm, dup) == ref
 
 
+
+def preflight():
+    """FakeRead against real pysam records of the repository's test BAM files, accessor by accessor"""
+    from stubs.validate import validate_fakeread
+    return validate_fakeread(300)
+
 _T = {'quick': 200, 'thorough': 900}
 LEMMAS = [
     dict(name='L1_pick_best_base_call', fn='_l1_pick_best', engine='E1', timeout=_T, replay='replay.C13:replay',
